@@ -841,7 +841,17 @@ func c04LenPad(c *Ctx, write, sum *ssa.Function) {
 			}
 		}
 	})
-	c.Check(zeroLoop, "K-C04-pad", fname(pad), "zero fill until len%64 == 56", "", "padding must append 0x00 until the length is 56 mod 64 (loop `len(msg)%64 != 56` appending 0 not found)", pad.Pos())
+	if !zeroLoop {
+		// the zeros are produced in another way (a computed count, append(make(zeros)...)): decide the LENGTH of the
+		// padded tail instead — 9 to 72 bytes more than the unprocessed tail
+		if c04PadBound(c, pad) {
+			c.Undecided("K-C04-pad", fname(pad), "zero fill until len%64 == 56", "no byte-wise zero-fill loop; proved only that the padding adds between 9 and 72 bytes", pad.Pos())
+		} else {
+			c.ViolatedHard("K-C04-pad", fname(pad), "zero fill until len%64 == 56", "no zero-fill loop `len(msg)%64 != 56`, and it is not provable that the padding adds between 9 and 72 bytes to the unprocessed tail", pad.Pos())
+		}
+	} else {
+		c.Holds("K-C04-pad", fname(pad), "zero fill until len%64 == 56", "", pad.Pos())
+	}
 	// (c) eight appends of byte lanes 7..0 of the length field, in order
 	var lanes []int
 	laneOK := true
@@ -1087,4 +1097,37 @@ func c04OneShot(c *Ctx, sp *ssa.Package, sum, write, reset *ssa.Function) {
 		_ = al // fresh local state
 	}
 	c.Check(bad == "", "T-C04-oneshot", fname(f), "Reset → Write(data) → Sum(nil) on a fresh state", "", bad, f.Pos())
+}
+
+// c04PadBound: every return of the padding function yields between 9 and 72 bytes more than the unprocessed tail (the
+// first byte-slice field of the receiver that the function loads)
+func c04PadBound(c *Ctx, pf *ssa.Function) bool {
+	if pf.Signature.Results().Len() != 1 || !isByteSlice(pf.Signature.Results().At(0).Type()) || len(pf.Params) == 0 {
+		return false
+	}
+	lb := &LB{p: c.P, f: pf, UsedContracts: map[string]bool{}}
+	var tail ssa.Value
+	instrsOf(pf, func(_ *ssa.BasicBlock, in ssa.Instruction) {
+		if ld, ok := in.(*ssa.UnOp); ok && ld.Op == token.MUL && isByteSlice(ld.Type()) {
+			if fa, ok := ld.X.(*ssa.FieldAddr); ok && fa.X == ssa.Value(pf.Params[0]) && tail == nil {
+				tail = ld
+			}
+		}
+	})
+	if tail == nil {
+		return false
+	}
+	n := 0
+	for _, b := range pf.Blocks {
+		ret, isRet := b.Instrs[len(b.Instrs)-1].(*ssa.Return)
+		if !isRet {
+			continue
+		}
+		n++
+		out, in := lb.lenLin(ret.Results[0]), lb.lenLin(tail)
+		if !lb.prove([]cons{ge(out, in.addScaled(linConst(9), 1)), le(out, in.addScaled(linConst(72), 1))}, b, nil, map[lvar]lin{}, 3) {
+			return false
+		}
+	}
+	return n > 0
 }
